@@ -71,7 +71,10 @@ CLAIMED['C02'] = dict(
         'all 16 kind pairs, contains => intersects, independent of time bounds, never raise for valid shapes; linestring containment = contiguous sub-list; '
         'a True intersection always has a witness point in both closed sets (soundness half of set truth); the edge-crossing disjunct is invariant under '
         'rotation/reversal. REFUTED and recorded as findings: boundary points / segment-interior points / polygon around a hole (D5a-c), vertex-order '
-        'dependence of the first-vertex fallback for collinear paths (D29). The converse of set truth is not claimed (polygonal Jordan).',
+        'dependence of the first-vertex fallback for collinear paths (D29). FULL planar set truth is proved for the axis-aligned family (Props/C02b.v, 14 theorems): for GeoBox and '
+        'rectangle GeoPolygon in every combination, start vertex, winding and argument order, over all integers, intersects_shape = the closed rectangles share a point and '
+        'contains_shape = strict nesting (the collinear-overlap exception never changes the answer for rectangles); Box-contains-point is the closed box (frame counts: C01 convention, '
+        'C02_box_contains_frame_point_refuted). For other shapes the converse of set truth is not claimed (polygonal Jordan).',
    note='Trusted: Coq kernel + vm_compute; SweepM/PairM mirror the code (checked by correspondence: direct do_edges_intersect stream, all ordered pairs of a 70-shape '
         'library x dt combinations x rotations, random valid pairs); GeomM tie from C01. IEEE rounding and antimeridian edges outside the model. No axioms.',
    technique='Coq proof (sweep invariant = brute force; symmetry; sub-list spec) + in-Coq correspondence + Python law oracle; closed-set reference on a fixed corpus only + translator tie (sweep: events, ordering, active set, loop body; 20 pair specialisations; is_sub_list, do_bounds_overlap)',
@@ -102,7 +105,9 @@ CLAIMED['C17'] = dict(
 CLAIMED['C10'] = dict(
    text='Machine-checked proof over all finite lists of integer points (hence rational, by scaling) that the model of Andrew monotone chain (dedup + lexicographic '
         'sort + <= 0 pops + lower[:-1]+upper) returns a closed ring of input points with no repeated vertex, every consecutive triple a STRICT left turn '
-        '(counter-clockwise, no collinear vertex) when the inputs are not all collinear, that CONTAINS EVERY INPUT (cross a b p >= 0 for every hull edge), that '
+        '(counter-clockwise, no collinear vertex) when the inputs are not all collinear, that CONTAINS EVERY INPUT (cross a b p >= 0 for every hull edge; and, Props/C10b.v, in the sense '
+        'of the library own point-in-polygon: the hull ring is proved strictly convex, so contains_coordinate of the hull polygon is true exactly on the geometric open convex hull for EVERY '
+        'query point, every input is inside or on the outline, hull vertices are on it), that '
         'depends only on the SET of inputs (permutation and multiplicity invariance), with the one-point / two-point / all-collinear cases characterised exactly; '
         'entry points = hull of the concatenated member vertices. Tied to the code by an in-Coq correspondence through the public multi-shape / collection entry '
         'points on integer and dyadic multi-scale frames (2^0 .. 2^-100, several bases; exactness checked per case), all permutations of small sets, plus an '
